@@ -73,6 +73,7 @@ RULES = {
     "INSTRSPEC": instr.rule_instrspec,
     "PREDSPEC": predicates.rule_predspec,
     "CHECKFORM": predicates.rule_checkform,
+    "CTXSHAPE": predicates.rule_ctxshape,
     "GUARD": guard.rule_guard,
     "LAYER": layer.rule_layer,
     "VERDICT": layer.rule_verdict,
